@@ -55,8 +55,8 @@ GAUSS_TYPES = ["legendre", "legendre01", "hermite", "laguerre", "glaguerre", "ch
 
 def shards(tier):
     k = 1 if tier == "quick" else 25
-    return ([("eig", 150 * k)] * 5 + [("schur", 150 * k)] * 2 + [("herm", 260 * k)] * 3 + [("svd", 200 * k)] * 4 +
-            [("gauss", 130 * k)] * 2)
+    return ([("eig", 400 * k)] * 5 + [("schur", 450 * k)] * 2 + [("herm", 700 * k)] * 3 + [("svd", 550 * k)] * 4 +
+            [("gauss", 400 * k)] * 2)
 
 
 # ============================================================================================ exact matrices
@@ -696,3 +696,727 @@ def gen_case(d, shard, tier):
     _pack(case, g, eu)
     case["cls"] = "%s:%s" % (case["fn"], case["kind"])
     return case
+
+
+# ============================================================================================ checking
+
+def _fmt_matrix(case):
+    s = "matrix %dx%d, entries*2^%d: re=%s" % (case["n"], case["m"], case["e"], case["re"])
+    if case.get("im"):
+        s += " im=%s" % (case["im"],)
+    return s[:700]
+
+
+def _build(mp, case):
+    """the mpmath matrix of the case (entries rounded to the working precision by the constructor, as a user's
+    would be) and its exact value as read back from the matrix"""
+    n, m, e = case["n"], case["m"], case["e"]
+    A = mp.matrix(n, m)
+    cplx = case.get("im") is not None
+    exactly = True
+    for i in range(n):
+        for j in range(m):
+            re = mp.ldexp(mp.mpf(case["re"][i][j]), e)
+            if abs(case["re"][i][j]).bit_length() > mp.prec:
+                exactly = False
+            if cplx:
+                im = mp.ldexp(mp.mpf(case["im"][i][j]), e)
+                if abs(case["im"][i][j]).bit_length() > mp.prec:
+                    exactly = False
+                A[i, j] = mp.mpc(re, im)
+            else:
+                A[i, j] = re
+    return A, zm_from(A), exactly
+
+
+class Ctx:
+    """per-case bookkeeping: result object, precision, scales"""
+
+    def __init__(self, res, case, AZ):
+        self.res = res
+        self.case = case
+        self.p = case["p"]
+        self.AZ = AZ
+        self.a2 = AZ.norm2()                                  # ||A||_F^2
+        self.a2_1 = d_max(self.a2, (1, 0))                    # max(1, ||A||_F)^2
+        self.t2 = tol2(self.p)
+        self.desc = "p=%d %s" % (self.p, _fmt_matrix(case))
+
+    def metric(self, name, r2, b2):
+        """record log2(residual / bound) + 10, i.e. log2 of the residual in units of scale * 2^-p"""
+        if r2[0]:
+            v = 0.5 * (d_lg(r2) - d_lg(b2)) + 10 if b2[0] else 1e9
+            if v > self.res.metrics.get(name, -1e9):
+                self.res.metrics[name] = v
+
+    def small(self, bucket, what, Rz, scale2, extra2=(1, 0)):
+        """violation unless ||Rz||_F^2 <= scale2 * extra2 * 2^(2(10-p))"""
+        r2 = Rz.norm2()
+        b2 = d_mul(d_mul(scale2, extra2), self.t2)
+        self.metric("lg_ratio:" + bucket.split(":")[0] + ":" + bucket.split(":")[1], r2, b2)
+        if not d_le(r2, b2):
+            sc = d_mul(scale2, extra2)
+            self.res.bad(bucket, "%s: norm of the residual is 2^%.1f, allowed 2^%.1f (= scale 2^%.1f times 2^%d); %s"
+                         % (what, 0.5 * d_lg(r2), 0.5 * d_lg(b2), 0.5 * d_lg(sc), 10 - self.p, self.desc))
+            return False
+        return True
+
+
+def _nonfinite(cx, bucket, what):
+    cx.res.bad(bucket, "%s contains a non-finite or foreign entry; %s" % (what, cx.desc))
+
+
+def _unchanged(cx, fn, A, AZ, ow):
+    if ow:
+        return
+    Z = zm_from(A)
+    if Z is None or not Z.same(AZ):
+        cx.res.bad("input_modified:%s" % fn, "%s modified its argument although overwrite_a=False; %s" % (fn, cx.desc))
+
+
+def _orth(cx, bucket, what, Q, rows=False):
+    """Q^H Q = I (columns orthonormal), or Q Q^H = I if rows"""
+    G = Q.mul(Q.H()) if rows else Q.H().mul(Q)
+    I = ZM.eye(G.r)
+    return cx.small(bucket, what, G.sub(I), cx.a2_1)
+
+
+def _pairs_right(cx, bucket, EZ, VZ, what):
+    """columns of VZ are eigenvectors for EZ (column of scalars)"""
+    A = cx.AZ
+    ok = True
+    for i in range(VZ.c):
+        v = VZ.col(i)
+        v2 = v.norm2()
+        if v2[0] == 0:
+            cx.res.bad(bucket + ":zero_vector", "%s %d is the zero vector; %s" % (what, i, cx.desc))
+            ok = False
+            continue
+        r = A.mul(v).sub(v.scal(EZ.re[i], EZ.im[i], EZ.e))
+        ok &= cx.small(bucket, "%s %d, A v - e v" % (what, i), r, cx.a2, v2)
+    return ok
+
+
+def _pairs_left(cx, bucket, EZ, UZ, what):
+    A = cx.AZ
+    ok = True
+    for i in range(UZ.r):
+        u = UZ.row(i)
+        u2 = u.norm2()
+        if u2[0] == 0:
+            cx.res.bad(bucket + ":zero_vector", "%s %d is the zero vector; %s" % (what, i, cx.desc))
+            ok = False
+            continue
+        r = u.mul(A).sub(u.scal(EZ.re[i], EZ.im[i], EZ.e))
+        ok &= cx.small(bucket, "%s %d, u A - e u" % (what, i), r, cx.a2, u2)
+    return ok
+
+
+def _trace(cx, bucket, EZ):
+    n = cx.AZ.r
+    tr = cx.AZ.trace()
+    T = ZM(1, 1, [tr[0]], [tr[1]], tr[2])
+    S = ZM(1, 1, [sum(EZ.re)], [sum(EZ.im)], EZ.e)
+    cx.small(bucket, "sum of the eigenvalues minus trace(A)", S.sub(T), cx.a2, (n * n, 0))
+
+
+def _known(cx, bucket, EZ):
+    """compare the eigenvalue multiset with the construction's (well-conditioned constructions only)"""
+    case = cx.case
+    if "known" not in case or not cx.exactly:
+        return
+    kn = case["known"]
+    ke = case["known_e"]
+    n = len(kn)
+    # tolerance^2 = kap2 * ||A||^2 * 2^(2(10-p)); must be far below the smallest gap between distinct known values
+    t2 = d_mul(d_mul((case["kap2"], 0), cx.a2), cx.t2)
+    gaps = [(a[0] - b[0]) ** 2 + (a[1] - b[1]) ** 2 for a in kn for b in kn if a != b]
+    if gaps and not d_le(d_mul(t2, (64, 0)), (min(gaps), 2 * ke)):
+        return                                               # too ill conditioned for a meaningful comparison
+    e = min(EZ.e, ke)
+    got = [(EZ.re[i] << (EZ.e - e), EZ.im[i] << (EZ.e - e)) for i in range(EZ.r)]
+    want = [(a[0] << (ke - e), a[1] << (ke - e)) for a in kn]
+    if len(got) != n:
+        cx.res.bad(bucket + ":count", "%d eigenvalues returned for an %dx%d matrix; %s" % (len(got), n, n, cx.desc))
+        return
+    used = [False] * n
+    for w in want:
+        best, bi = None, None
+        for i, g in enumerate(got):
+            if used[i]:
+                continue
+            dd = (g[0] - w[0]) ** 2 + (g[1] - w[1]) ** 2
+            if best is None or dd < best:
+                best, bi = dd, i
+        used[bi] = True
+        cx.metric("lg_ratio:eigval", (best, 2 * e), t2)
+        if not d_le((best, 2 * e), t2):
+            cx.res.bad(bucket, "eigenvalue %s*2^%d of the construction (multiset %s) has no partner among the returned values: "
+                       "nearest unused one is 2^%.1f away, allowed 2^%.1f; %s"
+                       % (list(w), e, kn, 0.5 * d_lg((best, 2 * e)), 0.5 * d_lg(t2), cx.desc))
+            return
+
+
+def _raws_list(E):
+    out = []
+    for x in E:
+        t = scal_raw(x)
+        out.append(t if t is None else (tuple(t[0]), tuple(t[1])))
+    return out
+
+
+def _certify_eigenvalue(cx, lam_re, lam_im, lam_e):
+    """find v with ||(A - lam I) v|| <= ||A|| ||v|| 2^(10-p) using the reference package, verify exactly"""
+    import mpref
+    rm = mpref.mp
+    A = cx.AZ
+    n = A.r
+    old = rm.prec
+    try:
+        rm.prec = 3 * cx.p + 100
+        B = rm.matrix(n, n)
+        for i in range(n):
+            for j in range(n):
+                B[i, j] = rm.mpc(rm.ldexp(rm.mpf(A.re[i * n + j]), A.e), rm.ldexp(rm.mpf(A.im[i * n + j]), A.e))
+        lam = rm.mpc(rm.ldexp(rm.mpf(lam_re), lam_e), rm.ldexp(rm.mpf(lam_im), lam_e))
+        nrm = rm.sqrt(rm.ldexp(rm.mpf(cx.a2[0]), cx.a2[1]))
+        v = None
+        for attempt in range(4):
+            shift = lam + (nrm + 1) * rm.ldexp(rm.mpf(attempt), -2 * cx.p - 20) * rm.mpc(3, 1)
+            C = B - shift * rm.eye(n)
+            try:
+                y = rm.matrix([rm.mpf(1) + rm.mpf(i * i % 7) / 5 for i in range(n)])
+                for _ in range(2):
+                    y = rm.lu_solve(C, y)
+                    y = y / rm.norm(y)
+                    y = rm.lu_solve(C.H, y)
+                    y = y / rm.norm(y)
+                v = y
+                break
+            except (ZeroDivisionError, TypeError, ValueError):
+                continue          # exactly singular: retry with a shift perturbed far below the tolerance
+        if v is None:
+            return None
+        mx = max(abs(x) for x in v)
+        w = [x / mx for x in v]
+        sc = 2 * cx.p + 40
+        vre = [int(rm.floor(rm.ldexp(rm.re(x), sc))) for x in w]
+        vim = [int(rm.floor(rm.ldexp(rm.im(x), sc))) for x in w]
+    finally:
+        rm.prec = old
+    V = ZM(n, 1, vre, vim, -sc)
+    r = A.mul(V).sub(V.scal(lam_re, lam_im, lam_e))
+    return d_le(r.norm2(), d_mul(d_mul(cx.a2, V.norm2()), cx.t2))
+
+
+# ---------------------------------------------------------------------------------------------- eig / eig_sort
+
+def _check_eig(mp, cx, A):
+    res, case = cx.res, cx.case
+    n = case["n"]
+    left, right, ow = case["left"], case["right"], case["ow"]
+    arg = A.copy() if ow else A
+    try:
+        out = mp.eig(arg, left=left, right=right, overwrite_a=ow)
+    except RuntimeError as e:
+        res.bad("noconv:hessenberg_qr", "eig raised %s; %s" % (e, cx.desc))
+        return
+    res.n += 1
+    _unchanged(cx, "eig", A, cx.AZ, ow)
+    want_len = 1 + int(left) + int(right)
+    tag = "eig:L%dR%d" % (left, right)
+    if want_len == 1:
+        if not isinstance(out, list):
+            res.bad("shape:eig:n1" if n == 1 else "shape:eig", "eig(left=False, right=False) is documented to return the list E, "
+                    "returned %s of length %s; %s" % (type(out).__name__, len(out) if hasattr(out, "__len__") else "?", cx.desc))
+            if isinstance(out, tuple) and out and isinstance(out[0], list):
+                out = out[0]
+            else:
+                return
+        E, EL, ER = out, None, None
+    else:
+        if not isinstance(out, tuple) or len(out) != want_len:
+            res.bad("shape:eig", "eig(left=%s, right=%s) returned %s of length %s, documented %d-tuple; %s"
+                    % (left, right, type(out).__name__, len(out) if hasattr(out, "__len__") else "?", want_len, cx.desc))
+            return
+        E = out[0]
+        EL = out[1] if left else None
+        ER = out[-1] if right else None
+    if not isinstance(E, list) or len(E) != n:
+        res.bad("shape:eig", "E is %s of length %s for n=%d; %s" % (type(E).__name__, len(E) if hasattr(E, "__len__") else "?", n, cx.desc))
+        return
+    EZ = zm_from(E)
+    if EZ is None:
+        return _nonfinite(cx, "nonfinite:eig", "E")
+    ok = True
+    for nm, M in (("EL", EL), ("ER", ER)):
+        if M is not None and not (hasattr(M, "rows") and (M.rows, M.cols) == (n, n)):
+            res.bad("shape:eig", "%s is not an %dx%d matrix; %s" % (nm, n, n, cx.desc))
+            return
+    if ER is not None:
+        VZ = zm_from(ER)
+        if VZ is None:
+            return _nonfinite(cx, "nonfinite:eig", "ER")
+        ok &= _pairs_right(cx, "resid:eig:right", EZ, VZ, "right eigenvector")
+    if EL is not None:
+        UZ = zm_from(EL)
+        if UZ is None:
+            return _nonfinite(cx, "nonfinite:eig", "EL")
+        ok &= _pairs_left(cx, "resid:eig:left", EZ, UZ, "left eigenvector")
+    if EL is None and ER is None:
+        # eigenvalues only: certified values of a full call, else explicit certificate
+        try:
+            E2, ER2 = mp.eig(A, left=False, right=True)
+            res.n += 1
+            full = _raws_list(E2)
+            VZ2 = zm_from(ER2)
+            EZ2 = zm_from(E2)
+        except Exception:
+            full, VZ2, EZ2 = None, None, None
+        same = full is not None and VZ2 is not None and EZ2 is not None and _raws_list(E) == full
+        if same:
+            if not _pairs_right(cx, "resid:eig:right", EZ2, VZ2, "right eigenvector (full call)"):
+                same = False
+        if not same:
+            for i in range(n):
+                c = _certify_eigenvalue(cx, EZ.re[i], EZ.im[i], EZ.e)
+                if c is None:
+                    res.inconclusive = True
+                elif not c:
+                    res.bad("resid:eig:values_only", "eigenvalue %d = %s returned by eig(left=False, right=False) is not an "
+                            "eigenvalue of any matrix within ||A|| 2^(10-p) of A (no certifying vector); %s" % (i, E[i], cx.desc))
+    _trace(cx, "trace:eig", EZ)
+    _known(cx, "eigval:eig", EZ)
+    _check_sort(mp, cx, E, EL, ER)
+
+
+def _key_exact(f, t):
+    """exact key of eigenvalue raw pair t=(re_raw, im_raw) as a Fraction, and slack flag"""
+    re, im = exact.to_fraction(t[0]), exact.to_fraction(t[1])
+    if f in ("default", "real"):
+        return re
+    if f == "imag":
+        return im
+    if f == "negre":
+        return -re
+    return re * re + im * im          # abs: compared through squares
+
+
+def _check_sort(mp, cx, E, EL, ER):
+    res, case = cx.res, cx.case
+    n = len(E)
+    f = case["sortf"]
+    sv = case["sortv"]
+    useL = EL is not None and bool(sv & 2)
+    useR = ER is not None and bool(sv & 1)
+    E0 = list(E)
+    L0 = EL.copy() if useL else False
+    R0 = ER.copy() if useR else False
+    before = []
+    r0 = _raws_list(E0)
+    for i in range(n):
+        before.append((r0[i],
+                       tuple(_raws_list([EL[i, j] for j in range(n)])) if useL else None,
+                       tuple(_raws_list([ER[j, i] for j in range(n)])) if useR else None))
+    kw = {}
+    if f == "negre":
+        kw["f"] = lambda x: -mp.re(x)
+    elif f != "default":
+        kw["f"] = f
+    out = mp.eig_sort(E0, L0, R0, **kw)
+    res.n += 1
+    want_len = 1 + int(useL) + int(useR)
+    if want_len == 1:
+        if not isinstance(out, list):
+            res.bad("shape:eig_sort", "eig_sort(E) returned %s, documented E; %s" % (type(out).__name__, cx.desc))
+            return
+        Es, Ls, Rs = out, None, None
+    else:
+        if not isinstance(out, tuple) or len(out) != want_len:
+            res.bad("shape:eig_sort", "eig_sort returned %s of length %s, documented %d-tuple; %s"
+                    % (type(out).__name__, len(out) if hasattr(out, "__len__") else "?", want_len, cx.desc))
+            return
+        Es = out[0]
+        Ls = out[1] if useL else None
+        Rs = out[-1] if useR else None
+    if len(Es) != n:
+        res.bad("shape:eig_sort", "eig_sort returned %d eigenvalues for %d; %s" % (len(Es), n, cx.desc))
+        return
+    rs = _raws_list(Es)
+    after = []
+    for i in range(n):
+        after.append((rs[i],
+                      tuple(_raws_list([Ls[i, j] for j in range(n)])) if useL else None,
+                      tuple(_raws_list([Rs[j, i] for j in range(n)])) if useR else None))
+    if sorted(map(repr, before)) != sorted(map(repr, after)):
+        res.bad("perm:eig_sort", "eig_sort(f=%s) did not return a permutation of the eigenpairs it was given "
+                "(E before %s, after %s); %s" % (f, E, Es, cx.desc))
+        return
+    keys = [_key_exact(f, t) for t in rs]
+    for i in range(n - 1):
+        a, b = keys[i], keys[i + 1]
+        if a > b:
+            if f == "abs" and a <= b * (1 + Fraction(1, 1 << (cx.p - 3))):
+                continue                      # |.| is compared after rounding to p bits
+            res.bad("order:eig_sort", "eig_sort(f=%s): key of element %d exceeds key of element %d in the result %s; %s"
+                    % (f, i, i + 1, Es, cx.desc))
+            return
+
+
+# ---------------------------------------------------------------------------------------------- schur / hessenberg
+
+def _check_schur(mp, cx, A):
+    res, case = cx.res, cx.case
+    n, fn, ow = case["n"], case["fn"], case["ow"]
+    arg = A.copy() if ow else A
+    try:
+        out = getattr(mp, fn)(arg, overwrite_a=ow)
+    except RuntimeError as e:
+        res.bad("noconv:hessenberg_qr", "%s raised %s; %s" % (fn, e, cx.desc))
+        return
+    res.n += 1
+    if n > 1:
+        _unchanged(cx, fn, A, cx.AZ, ow)          # for n == 1 the argument itself is returned as T, nothing to modify
+    if not isinstance(out, tuple) or len(out) != 2:
+        res.bad("shape:%s" % fn, "%s returned %s, documented (Q, T); %s" % (fn, type(out).__name__, cx.desc))
+        return
+    Q, T = out
+    for nm, M in (("Q", Q), ("T", T)):
+        if not (hasattr(M, "rows") and (M.rows, M.cols) == (n, n)):
+            res.bad("shape:%s" % fn, "%s is not an %dx%d matrix; %s" % (nm, n, n, cx.desc))
+            return
+    QZ, TZ = zm_from(Q), zm_from(T)
+    if QZ is None or TZ is None:
+        return _nonfinite(cx, "nonfinite:%s" % fn, "Q or T")
+    low = 1 if fn == "schur" else 2
+    for i in range(n):
+        for j in range(n):
+            if i - j >= low and (TZ.re[i * n + j] or TZ.im[i * n + j]):
+                res.bad("structure:%s" % fn, "%s: entry (%d,%d) of the %s factor is %s, not exactly zero; %s"
+                        % (fn, i, j, "triangular" if low == 1 else "Hessenberg", T[i, j], cx.desc))
+                return
+    cx.small("resid:%s:QTQh" % fn, "Q T Q^H - A", QZ.mul(TZ).mul(QZ.H()).sub(cx.AZ), cx.a2)
+    _orth(cx, "orth:%s:Q" % fn, "Q^H Q - I", QZ)
+    if fn == "schur":
+        EZ = ZM(n, 1, [TZ.re[i * n + i] for i in range(n)], [TZ.im[i * n + i] for i in range(n)], TZ.e)
+        _known(cx, "eigval:schur", EZ)
+
+
+# ---------------------------------------------------------------------------------------------- eigsy / eighe / eigh
+
+def _check_herm(mp, cx, A):
+    res, case = cx.res, cx.case
+    n, fn, ow, vo = case["n"], case["fn"], case["ow"], case["vals_only"]
+    f = getattr(mp, fn)
+    rt = "eighe" if (fn == "eighe" or (fn == "eigh" and not cx.AZ.is_real())) else "eigsy"     # routine that does the work
+    try:
+        full = f(A)
+    except RuntimeError as e:
+        res.bad("noconv:tridiag_eigen", "%s raised %s; %s" % (fn, e, cx.desc))
+        return
+    res.n += 1
+    _unchanged(cx, fn, A, cx.AZ, False)
+    if not isinstance(full, tuple) or len(full) != 2:
+        res.bad("shape:%s" % fn, "%s returned %s, documented (E, Q); %s" % (fn, type(full).__name__, cx.desc))
+        return
+    E, Q = full
+    if not (hasattr(E, "rows") and E.rows * E.cols == n and hasattr(Q, "rows") and (Q.rows, Q.cols) == (n, n)):
+        res.bad("shape:%s" % fn, "E or Q has the wrong shape; %s" % cx.desc)
+        return
+    EZ = _real_vector(mp, cx, "type:%s:E" % fn, "eigenvalue", [E[i] for i in range(n)])
+    if EZ is None:
+        return
+    QZ = zm_from(Q)
+    if QZ is None:
+        return _nonfinite(cx, "nonfinite:%s" % fn, "Q")
+    if (fn == "eigsy" or (fn == "eigh" and cx.AZ.is_real())) and not QZ.is_real():
+        res.bad("type:%s:Q" % fn, "Q has non-real entries for a real symmetric matrix; %s" % cx.desc)
+    _ascending(cx, "order:%s" % rt, EZ, E, 1)
+    ok = _pairs_right(cx, "resid:%s:AQ" % rt, EZ, QZ, "eigenvector")
+    ok &= _orth(cx, "orth:%s:Q" % rt, "Q^H Q - I", QZ)
+    _known(cx, "eigval:%s" % rt, EZ)
+    if vo or ow:
+        arg = A.copy() if ow else A
+        try:
+            o2 = f(arg, eigvals_only=vo, overwrite_a=ow)
+        except RuntimeError as e:
+            res.bad("noconv:tridiag_eigen", "%s(eigvals_only=%s) raised %s; %s" % (fn, vo, e, cx.desc))
+            return
+        res.n += 1
+        _unchanged(cx, fn, A, cx.AZ, ow)
+        if vo:
+            if not (hasattr(o2, "rows") and o2.rows * o2.cols == n):
+                res.bad("shape:%s" % fn, "%s(eigvals_only=True) returned %s, documented E; %s" % (fn, type(o2).__name__, cx.desc))
+                return
+            E2 = o2
+        else:
+            if not isinstance(o2, tuple) or len(o2) != 2:
+                res.bad("shape:%s" % fn, "%s(overwrite_a=True) returned %s; %s" % (fn, type(o2).__name__, cx.desc))
+                return
+            E2 = o2[0]
+        E2Z = _real_vector(mp, cx, "type:%s:E" % fn, "eigenvalue (second call)", [E2[i] for i in range(n)])
+        if E2Z is None:
+            return
+        _ascending(cx, "order:%s" % rt, E2Z, E2, 1)
+        if ok and not E2Z.same(EZ):
+            # Weyl: both sorted spectra are within the certified residual of the true one
+            dz = E2Z.sub(EZ)
+            worst = max(x * x for x in dz.re)
+            b2 = d_mul(d_mul(cx.a2, (4, 0)), cx.t2)
+            cx.metric("lg_ratio:vals_only", (worst, 2 * dz.e), b2)
+            if not d_le((worst, 2 * dz.e), b2):
+                res.bad("eigval:%s:vals_only" % rt, "%s(eigvals_only=%s, overwrite_a=%s) = %s differs from the certified "
+                        "eigenvalues %s by more than 2 ||A|| 2^(10-p); %s" % (fn, vo, ow, list(E2), list(E), cx.desc))
+        if not vo:
+            Q2Z = zm_from(o2[1])
+            if Q2Z is None:
+                return _nonfinite(cx, "nonfinite:%s" % fn, "Q")
+            _pairs_right(cx, "resid:%s:AQ" % rt, E2Z, Q2Z, "eigenvector (overwrite_a)")
+            _orth(cx, "orth:%s:Q" % rt, "Q^H Q - I (overwrite_a)", Q2Z)
+
+
+def _real_vector(mp, cx, bucket, what, items):
+    """exact column of the items, which must be finite and real-typed"""
+    for i, x in enumerate(items):
+        if not isinstance(x, mp.mpf):
+            t = scal_raw(x)
+            if t is None or t[1] != exact.fzero:
+                cx.res.bad(bucket, "%s %d is %r (type %s), documented real; %s" % (what, i, x, type(x).__name__, cx.desc))
+                return None
+            cx.res.bad(bucket + ":mpc", "%s %d has type %s (zero imaginary part) instead of mpf; %s" % (what, i, type(x).__name__, cx.desc))
+    Z = zm_from(items)
+    if Z is None:
+        _nonfinite(cx, bucket.replace("type", "nonfinite"), what)
+    return Z
+
+
+def _ascending(cx, bucket, Z, E, sign):
+    for i in range(Z.r - 1):
+        if sign * Z.re[i] > sign * Z.re[i + 1]:
+            cx.res.bad(bucket, "values are not in %s order: %s; %s" % ("ascending" if sign > 0 else "descending", list(E), cx.desc))
+            return False
+    return True
+
+
+# ---------------------------------------------------------------------------------------------- svd
+
+def _check_svd(mp, cx, A):
+    res, case = cx.res, cx.case
+    m, n, fn = case["n"], case["m"], case["fn"]              # A is m x n
+    full, uv, ow = case["full"], case["uv"], case["ow"]
+    f = getattr(mp, fn)
+    rt = "svd_c" if (fn == "svd_c" or (fn == "svd" and not cx.AZ.is_real())) else "svd_r"         # routine that does the work
+    k = min(m, n)
+    arg = A.copy() if ow else A
+    try:
+        out = f(arg, full_matrices=full, compute_uv=True, overwrite_a=ow)
+    except RuntimeError as e:
+        res.bad("noconv:%s" % rt, "%s raised %s; %s" % (fn, e, cx.desc))
+        return
+    res.n += 1
+    _unchanged(cx, fn, A, cx.AZ, ow)
+    if not isinstance(out, tuple) or len(out) != 3:
+        res.bad("shape:%s" % fn, "%s returned %s, documented (U, S, V); %s" % (fn, type(out).__name__, cx.desc))
+        return
+    U, S, V = out
+    shU = (m, m) if full else (m, k)
+    shV = (n, n) if full else (k, n)
+    tagf = "full" if full else "thin"
+    if not (hasattr(U, "rows") and hasattr(V, "rows") and hasattr(S, "rows")) or (U.rows, U.cols) != shU or \
+            (V.rows, V.cols) != shV or S.rows * S.cols != k:
+        res.bad("shape:%s:%s" % (fn, tagf), "%s(full_matrices=%s) of a %dx%d matrix returned shapes U %s, S %s, V %s; documented "
+                "%s, %d, %s; %s" % (fn, full, m, n, (getattr(U, "rows", "?"), getattr(U, "cols", "?")),
+                                    (getattr(S, "rows", "?"), getattr(S, "cols", "?")), (getattr(V, "rows", "?"), getattr(V, "cols", "?")),
+                                    shU, k, shV, cx.desc))
+        return
+    SZ = _real_vector(mp, cx, "type:%s:S" % fn, "singular value", [S[i] for i in range(k)])
+    if SZ is None:
+        return
+    UZ, VZ = zm_from(U), zm_from(V)
+    if UZ is None or VZ is None:
+        return _nonfinite(cx, "nonfinite:%s" % fn, "U or V")
+    if cx.AZ.is_real() and fn in ("svd", "svd_r") and not (UZ.is_real() and VZ.is_real()):
+        res.bad("type:%s:UV" % fn, "complex factors for a real matrix; %s" % cx.desc)
+    if any(x < 0 for x in SZ.re):
+        res.bad("sign:%s" % rt, "negative singular value in %s; %s" % (list(S), cx.desc))
+    _ascending(cx, "order:%s" % rt, SZ, S, -1)
+    D = zm_diag(SZ, shU[1], shV[0])
+    ok = cx.small("resid:%s:USV:%s" % (rt, tagf), "U diag(S) V - A", UZ.mul(D).mul(VZ).sub(cx.AZ), cx.a2)
+    ubucket = "orth:%s:U:%s" % (rt, tagf)
+    if n > m and d_le((SZ.re[k - 1] ** 2, 2 * SZ.e), d_mul(cx.a2, cx.t2)):
+        ubucket = "orth:%s:U:wide_rankdef" % rt           # more columns than rows and numerically rank deficient
+    ok &= _orth(cx, ubucket, "U^H U - I", UZ)
+    ok &= _orth(cx, "orth:%s:V:%s" % (rt, tagf), "V V^H - I", VZ, rows=True)
+    if not uv:
+        arg = A.copy() if ow else A
+        try:
+            S2 = f(arg, full_matrices=full, compute_uv=False, overwrite_a=ow)
+        except RuntimeError as e:
+            res.bad("noconv:%s" % rt, "%s(compute_uv=False) raised %s; %s" % (fn, e, cx.desc))
+            return
+        res.n += 1
+        _unchanged(cx, fn, A, cx.AZ, ow)
+        if not (hasattr(S2, "rows") and S2.rows * S2.cols == k) or isinstance(S2, tuple):
+            res.bad("shape:%s:values_only" % fn, "%s(compute_uv=False) returned %s of %s entries, documented S of length %d; %s"
+                    % (fn, type(S2).__name__, getattr(S2, "rows", "?"), k, cx.desc))
+            return
+        S2Z = _real_vector(mp, cx, "type:%s:S" % fn, "singular value (compute_uv=False)", [S2[i] for i in range(k)])
+        if S2Z is None:
+            return
+        if any(x < 0 for x in S2Z.re):
+            res.bad("sign:%s" % rt, "negative singular value in %s (compute_uv=False); %s" % (list(S2), cx.desc))
+        _ascending(cx, "order:%s" % rt, S2Z, S2, -1)
+        if ok and not S2Z.same(SZ):
+            dz = S2Z.sub(SZ)
+            worst = max(x * x for x in dz.re)
+            b2 = d_mul(d_mul(cx.a2, (4, 0)), cx.t2)
+            cx.metric("lg_ratio:vals_only", (worst, 2 * dz.e), b2)
+            if not d_le((worst, 2 * dz.e), b2):
+                res.bad("singval:%s:values_only" % rt, "%s(compute_uv=False) = %s differs from the certified singular values %s "
+                        "by more than 2 ||A|| 2^(10-p); %s" % (fn, list(S2), list(S), cx.desc))
+
+
+# ---------------------------------------------------------------------------------------------- gauss_quadrature
+
+def _moment(rm, qt, k, a, b):
+    """closed-form k-th moment of the documented weight function (reference package, caller sets the precision)"""
+    half = rm.mpf(1) / 2
+    if qt == "legendre":
+        return rm.mpf(2) / (k + 1) if k % 2 == 0 else rm.mpf(0)
+    if qt == "legendre01":
+        return rm.mpf(1) / (k + 1)
+    if qt == "hermite":
+        return rm.gamma(rm.mpf(k + 1) / 2) if k % 2 == 0 else rm.mpf(0)
+    if qt == "laguerre":
+        return rm.factorial(k)
+    if qt == "glaguerre":
+        return rm.gamma(k + a + 1)
+    if qt == "chebyshev1":
+        return rm.beta(rm.mpf(k + 1) / 2, half) if k % 2 == 0 else rm.mpf(0)
+    if qt == "chebyshev2":
+        return rm.beta(rm.mpf(k + 1) / 2, 3 * half) if k % 2 == 0 else rm.mpf(0)
+    if qt == "jacobi":
+        # x = 2t - 1:  2^(a+b+1) * sum_j C(k,j) 2^j (-1)^(k-j) B(b+1+j, a+1)
+        s = rm.mpf(0)
+        for j in range(k + 1):
+            s += rm.binomial(k, j) * (1 << j) * (-1) ** (k - j) * rm.beta(b + 1 + j, a + 1)
+        return rm.power(2, a + b + 1) * s
+    raise ValueError(qt)
+
+
+INTERVAL = {"legendre": (-1, 1), "legendre01": (0, 1), "hermite": (None, None), "laguerre": (0, None),
+            "glaguerre": (0, None), "chebyshev1": (-1, 1), "chebyshev2": (-1, 1), "jacobi": (-1, 1)}
+
+
+def _check_gauss(mp, res, case):
+    import mpref
+    rm = mpref.mp
+    p, n, qt = case["p"], case["n"], case["qtype"]
+    (an, asx), (bn, bs) = case["alpha"], case["beta"]
+    desc = "p=%d gauss_quadrature(%d, %r, alpha=%d/2^%d, beta=%d/2^%d) [parameters passed as %s]" % (p, n, qt, an, asx, bn, bs, case["ptype"])
+
+    def par(num, s):
+        if case["ptype"] == "float":
+            return float(num) / (1 << s)
+        if case["ptype"] == "auto" and s == 0:
+            return num
+        return mp.ldexp(mp.mpf(num), -s)
+    if qt == "jacobi":
+        out = mp.gauss_quadrature(n, qt, par(an, asx), par(bn, bs))
+    elif qt == "glaguerre":
+        out = mp.gauss_quadrature(n, qt, par(an, asx))
+    else:
+        out = mp.gauss_quadrature(n, qt)
+    res.nontrivial = n >= 2
+    if not isinstance(out, tuple) or len(out) != 2:
+        return res.bad("shape:gauss", "returned %s, documented (X, W); %s" % (type(out).__name__, desc))
+    X, W = out
+    for nm, M in (("X", X), ("W", W)):
+        if not hasattr(M, "rows") or M.rows * M.cols != n:
+            return res.bad("shape:gauss", "%s has %s entries, documented %d; %s" % (nm, getattr(M, "rows", "?"), n, desc))
+    xs, ws = [], []
+    for i in range(n):
+        for nm, v, lst in (("node", X[i], xs), ("weight", W[i], ws)):
+            t = scal_raw(v)
+            if t is None or t[1] != exact.fzero:
+                return res.bad("type:gauss:%s" % qt, "%s %d is %r, documented real; %s" % (nm, i, v, desc))
+            lst.append(t[0])
+    for i in range(n):
+        if ws[i][0] or not ws[i][1]:
+            res.bad("weight_sign:gauss:%s" % qt, "weight %d = %s is not positive; %s" % (i, W[i], desc))
+    lo, hi = INTERVAL[qt]
+    for i in range(n):
+        x = exact.to_fraction(xs[i])
+        if (lo is not None and x <= lo) or (hi is not None and x >= hi):
+            res.bad("node_range:gauss:%s" % qt, "node %d = %s is not inside the interval (%s, %s); %s" % (i, X[i], lo, hi, desc))
+    if len(set(xs)) != n:
+        res.bad("node_distinct:gauss:%s" % qt, "nodes are not distinct: %s; %s" % (list(X), desc))
+    # exact sums  sum w_i x_i^k  and  sum w_i |x_i|^k  as integers times a power of two
+    ex = min([t[2] for t in xs if t[1]] or [0])
+    ew = min([t[2] for t in ws if t[1]] or [0])
+    XI = [(-1 if t[0] else 1) * (int(t[1]) << (t[2] - ex)) if t[1] else 0 for t in xs]
+    WI = [(-1 if t[0] else 1) * (int(t[1]) << (t[2] - ew)) if t[1] else 0 for t in ws]
+    old = rm.prec
+    try:
+        rm.prec = 3 * p + 200
+        a = rm.ldexp(rm.mpf(an), -asx)
+        b = rm.ldexp(rm.mpf(bn), -bs)
+        m0 = _moment(rm, qt, 0, a, b)
+        pw = [1] * n
+        worst = None
+        for k in range(2 * n):
+            s = sum(w * x for w, x in zip(WI, pw))
+            sa = sum(abs(w) * abs(x) for w, x in zip(WI, pw))
+            e = ew + k * ex
+            sv = rm.ldexp(rm.mpf(s), e)
+            sav = rm.ldexp(rm.mpf(sa), e)
+            mk = _moment(rm, qt, k, a, b)
+            scale = max(m0, sav)
+            err = abs(sv - mk)
+            ratio = err / (scale * n * rm.ldexp(rm.mpf(1), 10 - p))
+            if worst is None or ratio > worst[0]:
+                worst = (ratio, k, sv, mk)
+            pw = [x * y for x, y in zip(pw, XI)]
+        res.n = 2 * n
+        if worst[0] > 0:
+            res.metrics["lg_ratio:gauss"] = float(rm.log(worst[0], 2)) + 10
+        if worst[0] > 1:
+            ratio, k, sv, mk = worst
+            res.bad("moment:gauss:%s" % qt, "sum w_i x_i^%d = %s but the exact moment is %s: error is %s times the allowed "
+                    "n 2^(10-p) max(m_0, sum w_i |x_i|^k); %s" % (k, rm.nstr(sv, 25), rm.nstr(mk, 25), rm.nstr(ratio, 5), desc))
+    finally:
+        rm.prec = old
+    return res
+
+
+# ---------------------------------------------------------------------------------------------- entry point
+
+def check_case(case):
+    import mpmath
+    from mpmath import mp
+    res = R()
+    res.cls = case["cls"]
+    res.n = 0
+    old = mp.prec
+    try:
+        mp.prec = case["p"]
+        if case["fn"] == "gauss":
+            return _check_gauss(mp, res, case)
+        A, AZ, exactly = _build(mp, case)
+        cx = Ctx(res, case, AZ)
+        cx.exactly = exactly
+        n = case["n"]
+        res.nontrivial = min(case["n"], case["m"]) >= 3 and case["kind"] not in ("diag", "zero")
+        fn = case["fn"]
+        if fn == "eig":
+            _check_eig(mp, cx, A)
+        elif fn in ("schur", "hessenberg"):
+            _check_schur(mp, cx, A)
+        elif fn in ("eigsy", "eighe", "eigh"):
+            _check_herm(mp, cx, A)
+        else:
+            _check_svd(mp, cx, A)
+        res.n = max(res.n, 1)
+        return res
+    finally:
+        mp.prec = 53
